@@ -27,18 +27,38 @@ def poly_exact(cs, x):
 
 
 def in_domain(cs, x):
-    """partial terms neither overflow nor underflow: every nonzero monomial and power within 2^+-960"""
+    """partial terms neither overflow nor underflow: every nonzero monomial c_i x^i within 2^+-960, and the repeated squares
+    x^2, x^4, x^8 (as far as the degree needs them) - the powers any evaluation scheme over binary64 has to form"""
     xa = abs(x)
     pw = Fraction(1)
     for i, c in enumerate(cs):
         if i > 0:
             pw *= xa
-            if pw != 0 and not (LO <= pw <= HI):
+            if (i & (i - 1)) == 0 and pw != 0 and not (LO <= pw <= HI):
                 return False
         t = abs(c) * pw
         if t != 0 and not (LO <= t <= HI):
             return False
     return True
+
+
+def window_case(rng, n):
+    """|x| so large / small that odd powers like x^3, x^5 leave the binary64 range although every monomial c_i x^i, every
+    coefficient and the repeated squares the scheme needs stay inside it"""
+    import math
+    deg = n - 1
+    top = 1
+    while top * 2 <= max(deg, 1):
+        top *= 2                       # largest repeated square needed
+    e = rng.randint(int(960 / (top + 0.99)) + 1, int(955 / top)) if deg >= 3 else rng.randint(100, 300)
+    m = max(0, e * deg - 980) + rng.randint(0, 20)
+    if m > 930:
+        e = 930 // deg
+        m = max(0, e * deg - 980)
+    sgn = rng.choice([1, -1])
+    x = rng.choice([1.0, -1.0]) * math.ldexp(rng.choice([1.0, 1.25]), sgn * e)
+    cs = [rng.choice([1.0, -1.0, 3.0, 0.5, rng.uniform(-2, 2)]) * math.ldexp(1.0, sgn * (m - e * i)) for i in range(n)]
+    return cs, x
 
 
 def coeffs(rng, n):
@@ -103,6 +123,10 @@ class P(Prop):
                 style, cs = coeffs(rng, k + 1)
                 x = argument(rng, style)
                 out.append(K.kernel_case("Poly%d::evaluate" % k, cs + [x], cls="poly/" + style))
+            if k >= 3:
+                for _ in range(max(6, per // 2)):
+                    cs, x = window_case(rng, k + 1)
+                    out.append(K.kernel_case("Poly%d::evaluate" % k, cs + [x], cls="poly/window"))
             for _ in range(max(2, per // 3)):
                 style, cs = coeffs(rng, k + 1)
                 v = rng.choice([rng.uniform(0.01, 20), rng.f64_loguniform(-30, 30, signed=False), 1.0, 2.718281828459045, 5e-324, 1e-310,
